@@ -44,7 +44,15 @@ def wfail_n(s):
 NOSTART = {"missing-bare-name": "c15-no-such-command-xyz", "missing-path": "/nonexistent/c15-helper", "no-x-bit": "@NOEXEC@",
            "directory": "@BINDIR@", "exec-format-error": "@BADFMT@", "missing-interpreter": "@BADINTERP@",
            "empty-command": "", "through-regular-file": "@BIN@/x", "missing-relative": "./c15-nothing-here",
-           "text-file-busy": "@TXTBSY@"}       # a copy of the helper that the check holds open for writing during the whole run (ETXTBSY)
+           "text-file-busy": "@TXTBSY@",
+           # command words with blanks that cannot be started, each with a DECOY next to it: an executable (the helper itself, so
+           # it would report) named like the first white-space separated field of the command
+           "blank-in-missing-path-decoy": "@ODD@/nx/my tools/lint", "blank-in-no-x-file-decoy": "@ODD@/nx/a b",
+           "blanks-in-missing-name-decoy": "@ODD@/nx/x y  z", "tab-in-missing-name-decoy": "@ODD@/nx/tab\tname",
+           "newline-in-missing-name-decoy": "@ODD@/nx/nl\nname", "bare-name-with-blank-decoy-on-PATH": "c15decoy --version"}
+# startable commands whose names / directories contain blanks, tabs and shell-significant characters (relative to @ODD@/ok)
+ODD_OK = ["my tools/lint", "a b", "x;y", "$(x)", "it's", 'say "hi"', "tab\there", "star*", "back\\slash", " lead", "trail ", "new\nline",
+          "a&b|c", "`tick`", "semi;colon dir/run me", "{brace}", "~tilde", "#hash"]       # a copy of the helper that the check holds open for writing during the whole run (ETXTBSY)
 BIGARG = "@BIGARG@"            # an argument longer than the kernel's MAX_ARG_STRLEN (131072): execve fails with E2BIG
 BIGLEN = 140000
 MAX_REPORT = 6          # replay files written per run, at most 2 per kind of clause (the evidence counts all failing cases)
@@ -272,14 +280,33 @@ class World:
             self.txtbsy_effective = False        # this kernel starts it anyway: the shape is left out (recorded in the evidence)
         except OSError as ex:
             self.txtbsy_effective = (ex.errno == errno.ETXTBSY)
+        # odd command words: startable ones (hard links to the helper, really named so) under o/ok, and unstartable ones
+        # under o/nx with decoys named like their first field; a decoy for a bare name on PATH
+        self.odd = os.path.join(ctx.tmp, "o")
+        self.odd_ok = []
+        for rel in ODD_OK:
+            pth = os.path.join(self.odd, "ok", rel)
+            os.makedirs(os.path.dirname(pth), exist_ok=True)
+            os.link(self.bin, pth)
+            self.odd_ok.append(pth)
+        nx = os.path.join(self.odd, "nx")
+        os.makedirs(nx)
+        for decoy in ("my", "a", "x", "tab", "nl"):
+            os.link(self.bin, os.path.join(nx, decoy))
+        with open(os.path.join(nx, "a b"), "w") as f:
+            f.write("#!/bin/sh\nexit 0\n")
+        os.chmod(os.path.join(nx, "a b"), 0o644)
+        os.makedirs(os.path.join(self.odd, "pb"))
+        os.link(self.bin, os.path.join(self.odd, "pb", "c15decoy"))
+        self.startable = set([self.bin] + self.odd_ok)
         self.unitrun = go_build_harness(ctx, "unitrun")
         # unitrun moves its request/answer protocol off descriptors 0 and 1 and points those at guard files (op_sh.go init)
         with open(os.path.join(ctx.tmp, "guard-stdin"), "w") as f:
             f.write("this is NOT the caller's stdin\n")
-        self.base_env = {"PATH": "/usr/bin:/bin", "C15_FDGUARD": ctx.tmp}
+        self.base_env = {"PATH": "/usr/bin:/bin:" + os.path.join(self.odd, "pb"), "C15_FDGUARD": ctx.tmp}
 
     def subst(self, s):
-        return s.replace("@BINDIR@", self.bindir).replace("@BIN@", self.bin).replace("@NOEXEC@", self.noexec).replace("@BADFMT@", self.badfmt).replace("@BADINTERP@", self.badinterp).replace("@TXTBSY@", self.txtbsy)
+        return s.replace("@BINDIR@", self.bindir).replace("@BIN@", self.bin).replace("@NOEXEC@", self.noexec).replace("@BADFMT@", self.badfmt).replace("@BADINTERP@", self.badinterp).replace("@TXTBSY@", self.txtbsy).replace("@ODD@", self.odd)
 
 
 def make_request(w, c, workdir, idx):
@@ -482,7 +509,7 @@ def oracle(w, c, a, setenv, envm):
     ecmd = py_expand(w.subst(c["cmd"]), look)
     if ecmd is not None:
         toolong = BIGARG in c["args"]
-        should = (ecmd == w.bin) and not toolong
+        should = (ecmd in w.startable) and not toolong
         if should != started:
             bad.append("command %r expands to %r which %s be started%s, but it was%s started" % (c["cmd"], ecmd, "can" if should else "cannot",
                        " (an argument of %d bytes exceeds the kernel's limit)" % BIGLEN if toolong else "", "" if started else " not"))
@@ -586,6 +613,10 @@ def child_term(exit_, sig, out, err):
 LONG_DIRECTIVES = ("C15X_OUT=", "C15X_ERR=", "C15X_DUMP=")     # left out of the Coq case on both sides (size); the oracle compares them
 
 
+def uses_odd(c):
+    return "@ODD@" in c["cmd"] or any("@ODD@" in kv[1] for kv in c["inherit"] + (c["env"] or []))
+
+
 def case_term(w, c, a, envm):
     d = a["dump"]
     penv = []
@@ -614,7 +645,7 @@ def case_term(w, c, a, envm):
         coq_bool(a["sh_cmdran"]), cs(unhex(a["text"])), started, coq_bool(stdin_ok),
         cs(unhex(a["os_stdout"])), cs(unhex(a["os_stderr"])), cs(unhex(a["buf_out"])), cs(unhex(a["buf_err"])))
     return "{| c_penv := %s; c_envm := %s; c_fn := %s; c_cmd := %s; c_args := %s; c_startable := %s; c_child := %s; c_obs := %s |}" % (
-        pairs(penv), pairs(envm or []), ent, cs(w.subst(c["cmd"])), coq_list(["(big %d)" % BIGLEN if x == BIGARG else cs(x) for x in c["args"]]), coq_list([cs(w.bin)]), child, obs)
+        pairs(penv), pairs(envm or []), ent, cs(w.subst(c["cmd"])), coq_list(["(big %d)" % BIGLEN if x == BIGARG else cs(x) for x in c["args"]]), coq_list([cs(x) for x in ([w.bin] + (w.odd_ok if uses_odd(c) else []))]), child, obs)
 
 
 def raw_term(c, a):
@@ -724,6 +755,26 @@ def run(ctx):
             if ("1048576" in plan or "262144" in plan):
                 c["streams"] = "file" if pi % 2 else "pipe"
             cases.append(c)
+    # startable commands whose words contain blanks, tabs, quotes, `;`, `$(..)` ...: exactly that file must run;
+    # literally and through a variable (inherited or in the map), entry points in rotation
+    for oi, rel in enumerate(ODD_OK):
+        for j in (0, 1):
+            fn = FNS[(oi + 3 * j) % 7]
+            c = gen_case(rng, fn=fn, good_cmd=True)
+            c["sig"], c["via_map"] = 0, False
+            c["inherit"] = [kv for kv in c["inherit"] if kv[0] not in ("C15_BIN", "C15_DIR", "C15_NAME")]
+            c["env"] = [kv for kv in c["env"] if kv[0] not in ("C15_BIN", "C15_DIR")] if c["env"] is not None else None
+            if j == 0:
+                c["cmd"] = "@ODD@/ok/" + rel
+            else:
+                c["cmd"] = rng.choice(["$C15_BIN", "${C15_BIN}"])
+                if fn in WITH_ENV and c["env"] is not None and oi % 2:
+                    c["env"].append(["C15_BIN", "@ODD@/ok/" + rel])
+                    c["inherit"].append(["C15_BIN", "/nonexistent/c15"])
+                else:
+                    c["inherit"].append(["C15_BIN", "@ODD@/ok/" + rel])
+            c["odd"] = rel
+            cases.append(c)
     # the KIND of file behind os.Stdin: every kind through every entry point
     for kind in STDIN_KINDS:
         for fn in FNS:
@@ -754,7 +805,7 @@ def run(ctx):
         cases.append(gen_group(rng, fx))
     for _ in range(16 if ctx.quick else 400):
         cases.append(gen_group(rng))
-    nrand = 220 if ctx.quick else 9000
+    nrand = 150 if ctx.quick else 9000
     for _ in range(nrand):
         cases.append(gen_case(rng, signals=signals))
     ncall = len(cases)
@@ -894,6 +945,7 @@ def run(ctx):
     cov["stdin_kinds"] = kinds
     cov["calls_with_credential_like_names"] = sum(1 for c in cases if not c.get("raw") and not c.get("group") and
                                                   any(kv[0] in CRED_NAMES for kv in (c["inherit"] + (c["env"] or []))))
+    cov["calls_with_odd_startable_command_words"] = sum(1 for c, r in zip(cases, results) if c.get("odd") and r[0]["dump"] is not None)
     cov["groups_of_overlapping_calls"] = n_groups
     cov["calls_in_groups"] = n_group_calls
     cov["signals_usable_here"] = signals
